@@ -83,6 +83,7 @@ def run_pipe_property(chk, me, streams, n_mut, matchers=None, oracle=None, extra
         muts.extend(mutate_hist(rng, a, 10))
     bad = run_scope_b(chk, me, muts[:nm], 'mutants', matchers, timeout=60.0)
     resolve_scope_b(chk, me, bad, 'mutants', matchers, oracle, streams)
+    assembled_part(chk, me, streams, matchers)
     if extra:
         extra(chk)
     return chk.finish(me)
@@ -145,3 +146,28 @@ def doc_column_part(chk, which):
                        what='a probe datagram of the documentation-table theorem is not converted as the model converts it'), {})
     chk.exhaustive.append('every row of the %s column of docs/protocols.md (theorem, kernel evaluation); %d probe datagrams through the real pipe'
                           % ('NetFlow v5' if which == 'v5' else 'sFlow', len(probes)))
+
+
+def assembled_part(chk, me, streams, matchers):
+    """The same generated histories through the pipe AS cmd/goflow2 ASSEMBLES IT (harness handler pipeasm): producer
+    behind debug.WrapPanicProducer and metrics.WrapPromProducer, metrics.NewDefaultPromTemplateSystem as the pipe's
+    templater, DecodeFlow behind debug.PanicDecoderWrapper and metrics.PromDecoderWrapper.  Expected: the specification
+    outputs of the generator, as for the bare pipe."""
+    st = streams[0]
+    n = max(30, st['n'][chk.tier] // 3)
+    cases = model_gen(me.GEN, st['stream'], chk.seed + 3, 0, n)
+    ins = [c[0].replace('pipe ', 'pipeasm ', 1) for c in cases if c[0].startswith('pipe ')]
+    exp = [c[1] for c in cases if c[0].startswith('pipe ')]
+    if not ins:
+        return
+    impl = impl_run(chk.harness, ins, timeout=st.get('timeout', 60.0))
+    chk.evals += len(ins)
+    chk.count('assembled pipe (Prometheus / panic wrappers, Prometheus template system)', len(ins))
+    pj = getattr(me, 'project', lambda x: x)
+    for a, o, e in zip(ins, impl, exp):
+        if me.nontrivial(a, e):
+            chk.nontrivial.add(hashlib.sha1(a.encode()).digest()[:8])
+        if pj(o) != pj(e):
+            chk.record('scopeA-assembled', dict(concrete=True, input=a[:60000], impl=pj(o)[:3000], expected=pj(e)[:3000],
+                       what='the pipe as cmd/goflow2 assembles it (metrics and panic wrappers) differs from the specification on a property-domain input'),
+                       matchers)
